@@ -683,7 +683,7 @@ def lowering_tie(run, rnd, quick, batch=0):
     opts4 = progs.Opts(reads='none', nested_def=False, max_stmts=12, loop_else=False, tuple_assign=False, except_as=False, mutation=True,
                        raising_return=True, append=False,
                        only={'if', 'try', 'return', 'retattr', 'raise', 'expr', 'while', 'for', 'break', 'continue'})
-    srcs = [progs.gen_function(rnd, rnd.choice([opts1, opts2, opts2, opts3, opts4])) for _ in range(n)]
+    srcs = (jump_grid() if batch == 0 else []) + [progs.gen_function(rnd, rnd.choice([opts1, opts2, opts2, opts3, opts4])) for _ in range(n)]
     cases = []
     meta = []
     sem_inputs = []
@@ -786,6 +786,45 @@ def gen_nested_try(rnd):
     return '\n'.join(L) + '\n'
 
 
+def jump_grid():
+    """every (container, jump) pair, deterministically: a loop whose body holds a compound statement (if / else branch /
+    with / try body / handler / try-else / inner loop) with a jump under a condition followed by more statements in the
+    same container, then statements after the container -- so that a lowering pass that stops guarding inside one kind
+    of container is seen on every run, whatever the random streams produce"""
+    out = []
+    containers = {
+        'if': ['if D({a}):', '    {J}'],
+        'else': ['if D({a}):', '    T({b})', 'else:', '    {J}'],
+        'with': ['with CM({a}):', '    {J}'],
+        'try': ['try:', '    {J}', 'except E0:', '    T({b})'],
+        'handler': ['try:', '    T({b})', '    raise E0()', 'except E0:', '    {J}'],
+        'tryelse': ['try:', '    T({b})', 'except E0:', '    T({c})', 'else:', '    {J}'],
+        'tryfinally': ['try:', '    {J}', 'finally:', '    T({b})'],
+        'while': ['while D({a}):', '    {J}'],
+        'for': ['for i2 in L({a}):', '    {J}'],
+    }
+    for loop in ('while D(1):', 'for i1 in L(1):'):
+        for cname, tpl in sorted(containers.items()):
+            for jump in ('continue', 'break', 'return T(9)'):
+                k = [10]
+
+                def K():
+                    k[0] += 1
+                    return k[0]
+                body = ['if D(%d):' % K(), '    ' + jump, 'x = T(%d, x)' % K(), 'T(%d)' % K()]
+                lines = []
+                for t in tpl:
+                    if '{J}' in t:
+                        ind = t[:len(t) - len(t.lstrip())]
+                        lines += [ind + b for b in body]
+                    else:
+                        lines.append(t.format(a=K(), b=K(), c=K()))
+                src = ['def f(a, b, c):', '    x = T(2, a)', '    ' + loop] + ['        ' + l for l in lines] + \
+                      ['        x = T(%d, x)' % K(), '    return T(%d, x)' % K()]
+                out.append('\n'.join(src) + '\n')
+    return out
+
+
 def search_on(programs, rnd):
     """targeted search after a broken correspondence: the programs on which model and pass disagree are run
     original vs converted under many decision vectors"""
@@ -859,6 +898,9 @@ def check(run):
     for _ in range(max(6, nprog // 15)):
         srcs.append(gen_nested_try(rnd))
         kinds.append(('nested-try-typed', False))
+    for g in jump_grid():
+        srcs.append(g)
+        kinds.append(('jump-grid', False))
     # corpus first
     cdir = os.path.join(vlib.ROOT, 'corpus', 'C01')
     corpus = []
